@@ -5,7 +5,11 @@
 #![allow(clippy::type_complexity)]
 #![allow(dead_code)]
 
+mod bind;
 mod engine;
+mod epipe;
+mod expr;
+mod ftab;
 mod fifo;
 mod gen;
 mod p01;
@@ -15,6 +19,8 @@ mod p07;
 mod p08;
 mod p09;
 mod p10;
+mod p11;
+mod p12;
 mod p14;
 mod p16;
 mod p17;
@@ -40,6 +46,8 @@ fn modules() -> Vec<Module> {
         ("C08", p08::run_all, p08::checks),
         ("C09", p09::run_all, p09::checks),
         ("C10", p10::run_all, p10::checks),
+        ("C11", p11::run_all, p11::checks),
+        ("C12", p12::run_all, p12::checks),
         ("C14", p14::run_all, p14::checks),
         ("C16", p16::run_all, p16::checks),
         ("C17", p17::run_all, p17::checks),
